@@ -240,6 +240,8 @@ def op_gen_params(op, root, opdir, cap):
         del kw["inpath"]          # API use without -f: gen_params' own default applies
     if op.get("lib"):
         kw["lib"] = list(op["lib"])
+    if op.get("dsdna"):
+        kw["dsdna"] = True
     g = op["graph"]
     if g["kind"] == "seq":
         kw["seq"] = list(g["seq"])
@@ -292,6 +294,7 @@ def op_gen_params(op, root, opdir, cap):
             _run_main(["gen_params", "-name", kw["name"], "-o", str(kw["outpath"])]
                       + (["-f"] + [str(p) for p in kw["inpath"]] if kw.get("inpath") else [])
                       + (["-lib"] + kw["lib"] if kw.get("lib") else [])
+                      + (["-dsdna"] if kw.get("dsdna") else [])
                       + (["-seq"] + kw["seq"] if "seq" in kw else ["-seqf", str(kw["seq_file"])]))
         else:
             gi.gen_params(**kw)
@@ -436,7 +439,7 @@ def roundtrip_check(op, root, cap, atypes, requested_graph, log_msgs):
         for key in ("charge", "mass"):
             ev, gv = e.get(key), g.get(key)
             if ev is None:
-                if gv is not None and key == "charge":
+                if gv is not None:
                     viols.append(("atoms", f"atom {i + 1}: built without a {key} but read back with {key} {gv!r}"))
                     break
                 continue
